@@ -459,10 +459,11 @@ fn run_scn_inner(s: &Scn, t: &mut Tape, ctx: &mut Ctx) -> Verdict {
             }
         }
     }
-    // the last SendRequest must not be dropped before the judgement (it would raise H3_NO_ERROR, a legal later event)
-    std::mem::forget(sr_keep);
-    std::mem::forget(stream_objs);
-    std::mem::forget(d);
+    // the last SendRequest must not be dropped before the judgement (it would raise H3_NO_ERROR, a legal later event):
+    // everything above worked on the snapshot `closes`; from here on nothing reads the transport any more
+    drop(sr_keep);
+    drop(stream_objs);
+    drop(d);
     // ---------------------------------------------------------------- classification
     let driver_steps: Vec<usize> = log.iter().enumerate().filter(|(_, (i, _))| *i == 0).map(|(n, _)| n).collect();
     let between = log.iter().enumerate().any(|(n, (i, p))| *i != 0 && (*p == "error.store" || *p == "waker.wake") && driver_steps.first().map(|f| n > *f).unwrap_or(false) && driver_steps.last().map(|l| n < *l).unwrap_or(false));
@@ -525,6 +526,7 @@ fn exhaustive(ctx: &mut Ctx, shard: usize, nshards: usize) -> Verdict {
     // all interleavings for 1 racing handle (quick) / 1 and 2 (thorough); schedules partitioned by index
     let kmax = ctx.tier.pick(1, 2);
     let mut total = 0u64;
+    let mut truncated = 0u64;
     let mut unit = 0usize;
     for s in variants_opt(kmax, ctx.tier == crate::runner::Tier::Thorough).into_iter() {
         // the interleaving tree of every variant is split by its first three choices; shards take the subtrees in turn
@@ -567,7 +569,14 @@ fn exhaustive(ctx: &mut Ctx, shard: usize, nshards: usize) -> Verdict {
                             }
                             Some(Ok(())) => {}
                         }
-                        if o.count > 2_000_000 {
+                        if s.streams.len() >= 2 {
+                            // two racing handles: the tree below one prefix has millions of leaves; every subtree is explored
+                            // depth first up to a fixed number of schedules (fixed work), the random tier samples the rest
+                            if o.count >= 2_000 {
+                                truncated += 1;
+                                break;
+                            }
+                        } else if o.count > 2_000_000 {
                             return Err(Failure::fault("interleaving space larger than expected"));
                         }
                     }
@@ -579,8 +588,11 @@ fn exhaustive(ctx: &mut Ctx, shard: usize, nshards: usize) -> Verdict {
         }
     }
     ctx.class_n("interleavings_enumerated", total);
+    if truncated > 0 {
+        ctx.class_n("two_handle_subtrees_cut_at_2000_schedules", truncated);
+    }
     if shard == 0 {
-        ctx.subspace("all interleavings (depth-first over the hook-point choices) of 1 driver poll with 1 racing handle (+ dropper / driver's own error / transport error variants); with 2 racing handles in thorough", 0);
+        ctx.subspace("all interleavings (depth-first over the hook-point choices) of 1 driver poll with 1 racing handle (+ dropper / driver's own error / transport error variants); with 2 racing handles in thorough: every subtree below the first three choices, depth first, up to 2000 schedules each", 0);
     }
     Ok(())
 }
